@@ -203,7 +203,7 @@ static void on_signal(int sig)
 }
 
 /* ------------------------------------------------------------------ dispatch */
-static const op_t *tables[] = { ops_basic, ops_mul, ops_div, ops_bit, ops_alias, ops_conv, ops_q, NULL };
+static const op_t *tables[] = { ops_basic, ops_mul, ops_div, ops_bit, ops_alias, ops_conv, ops_q, ops_hist, NULL };
 
 static op_fn lookup(const char *name)
 {
@@ -217,7 +217,7 @@ int main(int argc, char **argv)
 {
   (void)argc; (void)argv;
   char *line = NULL; size_t cap = 0; ssize_t len;
-  static char *av[64];
+  char **av = NULL; size_t avcap = 0;
   OUT = stdout;
   static char obuf[1 << 20];
   setvbuf(stdout, obuf, _IOFBF, sizeof obuf);
@@ -228,7 +228,11 @@ int main(int argc, char **argv)
     while (len > 0 && (line[len-1] == '\n' || line[len-1] == '\r')) line[--len] = 0;
     if (len == 0 || line[0] == '#') continue;
     int ac = 0;
-    for (char *tok = strtok(line, " \t"); tok && ac < 63; tok = strtok(NULL, " \t")) av[ac++] = tok;
+    for (char *tok = strtok(line, " \t"); tok; tok = strtok(NULL, " \t")) {
+      if ((size_t)ac + 2 > avcap) { avcap = avcap ? 2 * avcap : 256; av = (char **) realloc(av, avcap * sizeof(char *)); if (!av) exit(3); }
+      av[ac++] = tok;
+    }
+    if (av) av[ac] = NULL;
     if (ac == 0) continue;
     fprintf(OUT, "%ld", cur_line);
     first_tok = 0;
